@@ -765,3 +765,38 @@ def safe_raw_flag_used_for_branching(module: Node, other: Node, log: list[str]) 
         log.append(other)
         return True
     return False
+
+
+AFTER_ALL_NAME_CHARACTERS = "~"
+
+
+def unsafe_block_of_sorted_names(module: Node, nodes: list[Node]) -> set[str]:
+    from bisect import bisect_left
+
+    ordered = sorted(nodes)
+    return set(ordered[bisect_left(ordered, module) : bisect_left(ordered, module + AFTER_ALL_NAME_CHARACTERS)])
+
+
+def safe_block_of_sorted_names(module: Node, nodes: list[Node]) -> set[str]:
+    from bisect import bisect_left
+
+    ordered = sorted(nodes)
+    return {module} | set(ordered[bisect_left(ordered, module + ".") : bisect_left(ordered, module + "/")])
+
+
+def safe_separator_constant_everywhere(module: Node, prefix: str) -> bool:
+    root = prefix.rstrip(SEPARATOR)
+    if not module.startswith(root):
+        return False
+    if len(module) == len(root):
+        return True
+    return module[len(root)] == SEPARATOR
+
+
+def unsafe_length_compared_with_the_wrong_string(module: Node, prefix: str) -> bool:
+    root = prefix.rstrip(SEPARATOR)
+    if not module.startswith(root):
+        return False
+    if len(module) <= len(prefix):
+        return True
+    return module[len(root)] == SEPARATOR
